@@ -272,6 +272,43 @@ Lemma leaf_object_nonempty :
   (2500 <=? length src_leaf_object_start)%nat = true /\ (2500 <=? length src_leaf_object_continue)%nat = true.
 Proof. vm_compute. split; reflexivity. Qed.
 
+
+(* ---------------------------------------------------------------- parser: Fragment::parse_in, executed *)
+(* value.rs: white space, the dispatch on the first character, how the result of each sub-parser is wrapped.  RUN by the
+   translator in each context (first item of an input word) under the strict and the flexible record (second item), the
+   sub-parsers being the functions of null.rs, boolean.rs, number.rs, string.rs, array.rs, object.rs run from their own
+   files on the same stub.  Outcome: Ok -> [0; kind; index; position; e; n; payload] ++ code map with kind 0 null, 1 true,
+   2 false, 3 number, 4 string, 5 [], 6 {}, 7 BeginArray, 8 BeginObject (e = entry index, payload = key). *)
+Definition ct_fragment_outcome (r : res (frag * N)) : list N :=
+  match r with
+  | Ok ((f, i), st) =>
+      let '(kind, e, payload) :=
+        match f with
+        | FrValue VNull => (0, 0, [])
+        | FrValue (VBool true) => (1, 0, [])
+        | FrValue (VBool false) => (2, 0, [])
+        | FrValue (VNum n) => (3, 0, n)
+        | FrValue (VStr s) => (4, 0, s)
+        | FrValue (VArr _) => (5, 0, [])
+        | FrValue (VObj _) => (6, 0, [])
+        | FrBeginArray => (7, 0, [])
+        | FrBeginObject k e => (8, e, k)
+        end in
+      [0; kind; i; pos st; e; N.of_nat (length payload)] ++ payload ++ ct_flat (cm st)
+  | Err e => ct_err_outcome e
+  | Panic _ => [3]
+  | OutOfFuel => [4]
+  end.
+Definition ct_fragment_on (table : list (list N * list N)) : list (list N * list N) :=
+  map (fun w => (w, match w with
+                    | k :: o :: cs => ct_fragment_outcome (parse_fragment (ct_opts o) (nth (N.to_nat k) ct_contexts CNone) (ct_state cs))
+                    | _ => []
+                    end)) (map fst table).
+Theorem tie_leaf_fragment : src_leaf_fragment = ct_fragment_on src_leaf_fragment.
+Proof. vm_compute. reflexivity. Qed.
+Lemma leaf_fragment_nonempty : (2000 <=? length src_leaf_fragment)%nat = true.
+Proof. vm_compute. reflexivity. Qed.
+
 (* ---------------------------------------------------------------- printer: presets *)
 
 Definition cval_of_indent (i : indent) : cval :=
@@ -461,6 +498,10 @@ Theorem object_functions_from_source :
   /\ ((2500 <=? length src_leaf_object_start)%nat = true /\ (2500 <=? length src_leaf_object_continue)%nat = true).
 Proof. exact (conj tie_leaf_object_start (conj tie_leaf_object_continue leaf_object_nonempty)). Qed.
 
+Theorem fragment_from_source :
+  src_leaf_fragment = ct_fragment_on src_leaf_fragment /\ (2000 <=? length src_leaf_fragment)%nat = true.
+Proof. exact (conj tie_leaf_fragment leaf_fragment_nonempty). Qed.
+
 Theorem control_from_source :
   src_is_control = set_of Parser.is_control char_domain /\ (forall c, 256 <= c -> Parser.is_control c = false).
 Proof. exact (conj tie_is_control is_control_above). Qed.
@@ -525,6 +566,7 @@ Print Assumptions leaf_parsers_from_source.
 Print Assumptions string_scanner_from_source.
 Print Assumptions number_parser_from_source.
 Print Assumptions object_functions_from_source.
+Print Assumptions fragment_from_source.
 Print Assumptions parser_escapes_from_source.
 Print Assumptions surrogate_pair_from_source.
 Print Assumptions presets_from_source.
